@@ -57,8 +57,12 @@ def replay_(
             return ReplaySubject(buffer_size, window, scheduler)
 
         return ops.multicast(subject_factory=subject_factory, mapper=mapper)
-    rs: ReplaySubject[_TSource] = ReplaySubject(buffer_size, window, scheduler)
-    return ops.multicast(subject=rs)
+    def replay(source: Observable[_TSource]) -> ConnectableObservable[_TSource]:
+        # one subject per source the operator is applied to
+        rs: ReplaySubject[_TSource] = ReplaySubject(buffer_size, window, scheduler)
+        return source.pipe(ops.multicast(subject=rs))
+
+    return replay
 
 
 __all__ = ["replay_"]
